@@ -323,7 +323,9 @@ def d6_selection(ctx):
                 got.add((type(c.ops[0]).__name__, src(c.comparators[0])))
     want = {("Gt", Poly.sym("trough_offset").canon()),
             ("Lt", (Poly.sym("sr.ns") - Poly.sym("spike_length_samples") + Poly.sym("trough_offset")).canon())}
-    ctx.check(got == want and isinstance(ad[0].value, ast.BinOp) and isinstance(ad[0].value.op, ast.BitAnd), fi, ad[0].stmt, f"{sorted(got)}",
+    v0 = ad[0].value
+    conj = (isinstance(v0, ast.BinOp) and isinstance(v0.op, ast.BitAnd)) or (isinstance(v0, ast.Call) and call_name(v0) == "logical_and")  # `&` is normalised to logical_and
+    ctx.check(got == want and conj, fi, ad[0].stmt, f"{sorted(got)}",
               "a spike is admissible iff trough_offset < sample < ns - (length - trough_offset)", f"admissibility test is {sorted(got)}, expected {sorted(want)}", key="allowed")
     ch = [c for c in find(fi.node, ast.Call, nested=False) if call_name(c) == "choice"]
     okc = False
